@@ -112,3 +112,43 @@ class SamplerProbe:
         with rng_tap(self.trace):
             self.s.sample(state, temperature_inv=temperature_inv)
         return Trace(self.trace[start:])
+
+
+def hook_sample(probe: SamplerProbe, callback):
+    """Replace the instance's ``sample`` by a wrapper that observes the whole call.
+
+    callback(probe, state, temperature_inv, indep_before, events) is invoked after the real call returned.
+    `indep_before`: name -> value object held by the state before the call (values are never mutated in place).
+    Decision events get a 4th field: the value of the sampled variable *as proposed* (held by the state at decision time).
+    """
+    from leaspy.variables.specs import LinkedVariable
+
+    s = probe.s
+    orig_sample = s.sample  # bound method of the class
+    name = s.name
+
+    # decorate decision recorders so that they also capture the proposed value
+    holder = {"state": None}
+    step_attr = "_group_metropolis_step" if probe.is_ind else "_metropolis_step"
+    inner = getattr(s, step_attr)
+
+    def step(alpha):
+        r = inner(alpha)
+        kind, a, acc = probe.trace[-1]
+        probe.trace[-1] = (kind, a, acc, holder["state"]._values[name])
+        return r
+
+    setattr(s, step_attr, step)
+
+    def sample(state, *, temperature_inv):
+        dag = state.dag
+        before = {k: state._values[k] for k in dag.variables if not isinstance(dag[k], LinkedVariable)}
+        holder["state"] = state
+        start = len(probe.trace)
+        with rng_tap(probe.trace):
+            orig_sample(state, temperature_inv=temperature_inv)
+        events = Trace(probe.trace[start:])
+        del probe.trace[:]  # keep memory bounded in long fits
+        callback(probe, state, temperature_inv, before, events)
+
+    s.sample = sample
